@@ -12,7 +12,7 @@ RULE = ("all (numerator, denominator) in {1..7,12}x{2,4,8,16} x durations {0, ca
         "mid-bar) x key {None, C, F#} x construction route {absolute, relative}; non-trivial = padding, rejection or a "
         "signature event is involved")
 ASSUMPTIONS = ["a redundant repeat of the matching signature may be accepted or rejected (statement is silent)"]
-REQUIRED_FLAGS = ["after_history", "padded", "rejected_too_long", "rejected_conflicting_signature", "rejected_equal_length_signature", "accepted_exact", "signature_mid_bar",
+REQUIRED_FLAGS = ["hanging_note_ons", "after_history", "padded", "rejected_too_long", "rejected_conflicting_signature", "rejected_equal_length_signature", "accepted_exact", "signature_mid_bar",
                   "copy_compared"]
 
 SIGCFG = ["none", "m0", "m1", "c0", "c1", "m0m1", "m0c1", "c0m1", "d0", "e0", "e1", "m0e1"]
@@ -47,6 +47,8 @@ def gen_cases(unit, ctx):
             shapes += [[[0, 1, p, 0, 64]], [[dur - 1, 1, p, 0, 64]], [[0, dur, p, 0, 64]]]
         if dur >= 3:
             shapes += [[[0, 1, p, 0, 64], [dur - 1, 1, p, 0, 50]], [[0, dur, p, 0, 64], [1, dur - 2, p + 1, 1, 50]]]
+        if dur >= 2:      # one or two note-ons that are never closed (normalisation removes them; nothing else may go with them)
+            shapes += [[["hang", p, 0]], [["hang", p, 0], ["hang", p + 4, 0]], [["hang", p, 0], ["hang", p, 1], [1, 1, p + 7, 0, 64]]]
         if ctx["tier"] != "quick" and dur >= 4:
             shapes += [[[0, 2, p, 0, 64], [2, 2, p, 0, 50]], [[1, 1, p, 0, 64], [1, 2, p, 1, 50]], [[dur - 2, 2, p, 3, 9]]]
         for notes in shapes:
@@ -89,8 +91,17 @@ def check_case(case, ctx):
         events = [["ts", e[1], e[2], e[3]] for e in evd if e[0] == "ts"]
     else:
         dur, notes = case["dur"], case["notes"]
+        hanging = [x for x in notes if x[0] == "hang"]
+        notes = [x for x in notes if x[0] != "hang"]
         events = [] if sc == "none" else sig_events(sc, n, d)
         seq = (lib.seq_abs if build == "abs" else lib.seq_rel)(notes, events, dur if dur > 0 else None)
+        for _, hp_, hc_ in hanging:
+            if build == "abs":
+                seq.add_absolute_message(lib.on(0, hp_, hc_, 77))
+            else:
+                seq.add_relative_message(lib.on(None, hp_, hc_, 77), index=0)
+        if hanging:
+            R.flags.append("hanging_note_ons")
     conflicting = any((e[2], e[3]) != (n, d) for e in events)
     matching = sum(1 for e in events if (e[2], e[3]) == (n, d))
     must_reject = dur > cap or conflicting
